@@ -203,6 +203,21 @@ theorem c05_stream_id_rules (c : H2Conn) (sid : Nat) (kind : HdrKind) (es : Bool
   refine ⟨fun h => by simp [recvHeaders, h], fun h => by simp [recvData, h],
           by simp [recvFrame, hg, hd], by simp [recvFrame, hg, hd], by simp [recvFrame, hg, hd]⟩
 
+/-- **Not a data sink, and no stall**: DATA (with payload) for a stream the server no longer
+    tracks, outside the recently-half-closed window, draws ONE graceful GOAWAY(NO_ERROR) and ends
+    the parsing round (streams are served before parsing goes on); once a GOAWAY is out such a frame
+    is dropped WITHOUT ending the round -- ending it with nothing to write would strand the frames
+    behind it (the defect repaired by ead0846) -/
+theorem c05_data_sink_goaway_once (c : H2Conn) (sid len : Nat) (es : Bool)
+    (h0 : sid ≠ 0) (hc : sid ≤ c.cid) (hn : findStrm c sid = none) (hr : c.hcRecent = false) (hl : len ≠ 0) :
+    (c.goaway = 0 → (recvData c sid len none es).1.stop = true ∧
+                    (recvData c sid len none es).2 = (sendGoaway c 0).2) ∧
+    (c.goaway ≠ 0 → recvData c sid len none es = (c, [])) := by
+  have hc' : ¬ c.cid < sid := by omega
+  refine ⟨fun hg => ?_, fun hg => ?_⟩
+  · simp [recvData, h0, hc', hn, hr, hl, hg]
+  · simp [recvData, h0, hc', hn, hr, hl, hg]
+
 /-- **Concurrency**: a new stream is admitted only while fewer than the advertised number of
     streams (SETTINGS_MAX_CONCURRENT_STREAMS, read back from the code) are active; otherwise it
     is refused with RST_STREAM(REFUSED_STREAM) and no stream is created -/
@@ -445,6 +460,13 @@ example : (h2Step {} [.headers 1 (.request 200 10 0 false) true none false false
 example : (h2Step {} [.headers 1 (.request 200 10 0 false) true none false false,
                       .data 1 3 none true]).2 = [.rst 1 E.streamClosed, .windowUpdate 0 16384] := by decide
 example : (recvFrame {} (.ping false 0 8)).2 = [.pingAck] := by decide
+-- stream 1 answered and forgotten, stream 3 blocked by the connection window; then in one read two DATA
+-- frames for stream 1, the WINDOW_UPDATEs stream 3 waits for, and a PING: one GOAWAY, PING acked, stream 3 completes
+example : (h2Step (h2Step {} [.headers 1 (.request 200 10 0 false) true none false false,
+                              .headers 3 (.request 200 100000 0 false) true none false false]).1
+             [.data 1 3 none false, .data 1 3 none false, .windowUpdate 3 4 100000, .windowUpdate 0 4 100000,
+              .ping false 0 8]).2 =
+    [.goaway 3 0, .pingAck, .data 3 32750 false, .data 3 1750 false, .data 3 0 true] := by decide
 /-- a stream with a pending response whose window the client raised to 2^31-1 -/
 def exFull : H2Conn :=
   { streams := [{ id := 1, st := .hcRemote, swin := 2147483647, reqLen := 0, status := 200, pending := 100000,
